@@ -135,6 +135,14 @@ fn run_groups(groups: &[String], names: &[String]) -> Vec<Step> {
     out
 }
 
+/// did a value outside its static type (C01's monitor) precede whatever happened in this program? then a panic is the
+/// consequence of that (listed) finding and says nothing about the embedding API
+fn after_unsound_value(text: &str) -> bool {
+    let full = if text.contains("log := mut [int] []") { text.to_string() } else { format!("{PRELUDE}{text}") };
+    let m = crate::props::sound::run_text(&full, FUEL);
+    !m.state.violations.is_empty() || m.state.tainted.is_some()
+}
+
 fn check_repl(seed: u64, shard: u64, index: u64, rep: &mut Report) {
     let (body, names) = gen_statements(seed, shard, index);
     let texts: Vec<String> = body.iter().map(|s| format!("{};", print_stm(s, if index % 2 == 0 { Mode::Literal } else { Mode::Hidden }))).collect();
@@ -150,6 +158,10 @@ fn check_repl(seed: u64, shard: u64, index: u64, rep: &mut Report) {
         batch.push(match steps.last() {
             Some(Step::Done(r, vars)) => Some((r.clone(), vars.clone())),
             Some(Step::Failed(w)) if w.starts_with("panic") => {
+                if after_unsound_value(&texts[..k].join(" ")) {
+                    rep.count("not-judged:panic-after-unsound-value");
+                    return;
+                }
                 rep.violation(&format!("c17:batch:{w}"), &format!("batch run panicked: {w} :: {}", truncate(&texts[..k].join(" "), 400)), "c17-text", &texts[..k].join(" "));
                 None
             }
@@ -202,6 +214,10 @@ fn check_repl(seed: u64, shard: u64, index: u64, rep: &mut Report) {
                     }
                 }
                 (Step::Failed(w), _) if w.starts_with("panic") => {
+                    if after_unsound_value(&groups.join(" ")) {
+                        rep.count("not-judged:panic-after-unsound-value");
+                        return;
+                    }
                     rep.violation(&format!("c17:incremental:{w}"), &format!("incremental run panicked: {w} :: {}", truncate(&groups.join(" ⏎ "), 500)), "c17-text", &groups.join("\n"));
                     return;
                 }
@@ -360,6 +376,10 @@ fn check_exec(seed: u64, shard: u64, index: u64, rep: &mut Report) {
             }
         }
         (Err(p), _) | (_, Err(p)) if p.kind == PanicKind::Panic => {
+            if after_unsound_value(&format!("{setup}\n{text}")) {
+                rep.count("not-judged:panic-after-unsound-value");
+                return;
+            }
             rep.violation(&format!("c17:exec:panic:{}", p.site()), &format!("{} :: {}", p.short_msg(), truncate(&text, 300)), "c17-text", &format!("{setup}\n{text}"));
         }
         _ => rep.count("exec:not-both-complete"),
